@@ -135,6 +135,17 @@ CLAIMED = {
         "Single-ended time permutation is a KNOWN FINDING (F1: x-major weights are not equivariant).",
    ref="5/C18", note=TB + "purity is observed, not proved; T64/T65 (variance forms, deletion) are true by construction of the model (it takes arrays, and rows only "
         "read reference/matching cells) and are covered by the conformance pairs only.", technique="Coq proof of invariance/equivariance of the WLS problem + metamorphic pairs of real runs"),
+ "C08": dict(
+   text="PARTIAL. Proof for all nt, nx, nta: the slices/reshapes with which monte_carlo_single_ended / _double_ended unpack a sampled parameter vector "
+        "(incl. the selection from_i and the Fortran-order reshape of the splice block) are the layout positions of the named parameters (T30), so a draw at "
+        "p_val with zero covariance is the reported solution; the alpha-outside-sections guard: specification, REFUTED as coded (finding F5, repaired), "
+        "PARTIAL when index 0 is covered (T33); order statistics are monotone in rank (T32). Conformance: zero-variance run (sampled arrays compared with "
+        "p_val through the layout inside Coq; realisations and bounds equal the calibrated temperature), every realisation / variance / percentile recomputed "
+        "from the exposed samples, all 16 (double) and 4 (single) flag combinations executed, a layout leaving only the first location uncovered. What "
+        "the model cannot exhibit: convergence of tmp?_mc_var to tmp?_var - sampling support only (fixed seed, n = 2e4, thorough tier).",
+   ref="5/C08", note=TB + "scipy.stats.multivariate_normal, dask.random and np.random are outside the model; the realisation formula is compared numerically "
+        "(1e-9), only the unpacking is evaluated in Coq; tmpw of the MC routine is weighted with MC variances (0/0 at exactly zero variance), so its "
+        "zero-variance identity is checked with a 1e-14-scaled covariance against the routine's own tmpw.", technique="Coq proof of unpack=layout and guard; recomputation from exposed samples; sampling support labelled as such"),
 }
 NA = {}
 ALL = [f"C{i:02d}" for i in range(1, 21)]
